@@ -33,8 +33,11 @@ def leaves(tier):
             out.append("x %s %s;" % (op, rhs_for(op, "y")))
             out.append("RxV %s %s;" % (op, rhs_for(op, "a")))
             out.append("RxxV %s %s;" % (op, rhs_for(op, "b")))
+    if tier != "thorough":
+        out += ["x /= (y | 1);", "x &= y;"]  # the right operand is wider than the target
+    out += ["y |= 0x100000001ULL; x /= y;", "y |= 0x100000001ULL; x %= y;", "x += (a < b);", "x <<= (a < b);", "y >>= !a;", "x *= (a && b);"]
     out += ["x /= ((a & 15) | 1);", "x %= ((a & 15) | 1);", "x = x / -3;", "y /= ((b & 15) | 1);"]
-    out += ["RdV = x;", "RddV = y;", "PdV = x;", "mem_store_u32((a & 0xfc), y);", "JUMP(x);", "int32_t t = x + 1; x = t * 2;", ";", "{ }", "{ x = x + 1; y = y + (uint32_t)x; }", "RxV += a;", "x = y = a;", "x = RdV = y = b;", "RdV = RxV = x = a;", "x = RdV = i++;", "RdV = x = clz32(b);", "y = x = RxV = RdV = a;"]
+    out += ["RdV = x;", "RyyV = y;", "PeV = x;", "mem_store_u32((a & 0xfc), y);", "JUMP(x);", "int32_t t = x + 1; x = t * 2;", ";", "{ }", "{ x = x + 1; y = y + (uint32_t)x; }", "RxV += a;", "x = y = a;", "x = RdV = y = b;", "RdV = RxV = x = a;", "x = RdV = i++;", "RdV = x = clz32(b);", "y = x = RxV = RdV = a;"]
     return out
 
 
